@@ -172,9 +172,13 @@ def interval_distance(u, x_lo, x_hi, xr, wr):
     return np.maximum(0.0, np.maximum(lo - u, u - hi))
 
 
-def run_rung(case, nx, nt, grid="quadratic", probes=None):
+def run_rung(case, nx, nt, grid="quadratic", probes=None, reuse=None):
     t = sim.time_grid(grid, nt, T_END)
-    res = sim.make_reservoir(case["cls"], nx, case["p_f"], case["p_i"], case["table"])
+    if reuse is not None:  # the SAME object refined in place: the public field nx is reassigned before the next run
+        res = reuse
+        res.nx = nx
+    else:
+        res = sim.make_reservoir(case["cls"], nx, case["p_f"], case["p_i"], case["table"])
     res.simulate(t)
     m_f, m_i = sim.frac_values(res, case["cls"], case["p_f"], None, len(t))
     draw = m_i - m_f[0]
@@ -182,7 +186,12 @@ def run_rung(case, nx, nt, grid="quadratic", probes=None):
     idx = [int(np.argmin(np.abs(t - tp))) for tp in (probes or PROBES)]
     ridx = sorted(set(np.unique(np.round(np.linspace(0, 1, 41) ** 2 * (nt - 1)).astype(int)).tolist() + idx))
     te = t[ridx]
-    rf = np.asarray(res.recovery_factor(), dtype=float)[ridx]
+    rf_all = np.asarray(res.recovery_factor(), dtype=float).copy()
+    rf = rf_all[ridx]
+    # the documented sequence simulate -> recovery_factor() -> recovery_factor_interpolator(): the wrapped curve is the
+    # recovery factor that was just returned
+    via_interp = np.asarray(res.recovery_factor_interpolator()(t), dtype=float)
+    interp_dev = float(np.max(np.abs(via_interp - rf_all))) / max(float(np.max(np.abs(rf_all))), 1e-300)
     scale_rf = (1 - case["p_f"] / case["p_i"]) if case["cls"] == "ideal" else draw
     has_density = case["cls"] == "single" and "density" in res.fluid.pvt_props
     rfd = np.asarray(res.recovery_factor(density=True), dtype=float)[ridx] if has_density else None
@@ -205,7 +214,7 @@ def run_rung(case, nx, nt, grid="quadratic", probes=None):
     e_rfd = None
     if rfd is not None and ref_rfd is not None:
         e_rfd = float(np.max(np.abs(rfd - ref_rfd[0]))) / ref_rfd[1]
-    return {"nx": nx, "nt": nt, "E_field": e_field, "E_rf": e_rf, "E_rfd": e_rfd,
+    return {"nx": nx, "nt": nt, "E_field": e_field, "E_rf": e_rf, "E_rfd": e_rfd, "interp_dev": interp_dev, "res": res if reuse is not None else None,
             "rf_end": float(rf[-1] / scale_rf / plateau)}
 
 
@@ -213,6 +222,19 @@ def evaluate(case):
     rungs = ladder(case["tier"], case["ref"] == "fourier")
     L = [run_rung(case, nx, nt) for nx, nt in rungs]
     viol = []
+    worst_i = max(r["interp_dev"] for r in L)
+    if worst_i > 1e-12:
+        viol.append(V("convergence/interpolator-is-the-curve", f"the interpolator built after recovery_factor() differs from that "
+                      f"recovery factor at the simulated times by {worst_i:.3g} (relative)", case=case, observed=worst_i))
+    # the first two rungs again on ONE object whose nx is reassigned between the runs: same errors as fresh objects
+    obj = sim.make_reservoir(case["cls"], rungs[0][0], case["p_f"], case["p_i"], case["table"])
+    for k in (0, 1):
+        r2 = run_rung(case, rungs[k][0], rungs[k][1], reuse=obj)
+        if any(abs(r2[key_] - L[k][key_]) > 1e-12 + 1e-9 * abs(L[k][key_]) for key_ in ("E_field", "E_rf")):
+            viol.append(V("convergence/refined-in-place", f"the same object with nx reassigned to {rungs[k][0]} gives errors "
+                          f"(field {r2['E_field']:.4g}, recovery {r2['E_rf']:.4g}); a fresh object with that nx gives "
+                          f"({L[k]['E_field']:.4g}, {L[k]['E_rf']:.4g})", case=case))
+            break
     for key in ("E_field", "E_rf", "E_rfd"):
         es = [r[key] for r in L]
         if es[0] is None:
@@ -263,6 +285,8 @@ def evaluate(case):
     mv, mix_worst, mix_states = mixed_refinement(case, case["tier"])
     viol += mv
     nsteps = sum(nt for _, nt in rungs) * (2 if late else 1) + mix_states
+    for r in L:
+        r.pop("res", None)
     return {"violations": viol, "ladder": L, "late": late, "mix_worst": mix_worst, "uniform_ladder": eu, "states": nsteps, "transitions": nsteps - len(rungs),
             "outcome": "ratio<=%.1f" % (np.ceil(10 * max((L[k + 1]["E_rf"] / max(L[k]["E_rf"], 1e-300))
                                                          for k in range(len(L) - 1))) / 10)}
